@@ -139,11 +139,17 @@ def unit_env(item):
                     env.reset(td0.clone())
                 for how in ("deepcopy", "pickle"):
                     try:
+                        # an rng that has been used (a fresh copy would otherwise share the untouched default state)
+                        env._set_seed(977 + len(iid))
+                        torch.rand(3, generator=env.rng)
+                        st_before = env.rng.get_state().clone()
                         twin = copy.deepcopy(env) if how == "deepcopy" else pickle.loads(pickle.dumps(env))
                     except Exception as e:  # noqa: BLE001
                         p.violation(sig(skey.partition(":")[0], skey.partition(":")[2], f"crash:{type(e).__name__}", how), rec, f"{skey}: {how} of the environment ({when}) fails: {type(e).__name__}: {str(e)[:80]}")
                         continue
-                    if not torch.equal(twin.rng.get_state(), env.rng.get_state()):
+                    # (the library's environments all share torch's default generator object, so the copy's generator is
+                    # compared with the state the original had when it was copied, not with the original's live object)
+                    if not torch.equal(twin.rng.get_state(), st_before) or not torch.equal(twin.rng.get_state(), env.rng.get_state()):
                         p.violation(sig(skey.partition(":")[0], skey.partition(":")[2], "rng_state", how), rec, f"{skey}: {how} does not preserve the environment's rng state")
                     bisimulate(spec, env, td0, twin, td0, p, f"{how}|{when}", rec, max_leaves=60)
     finally:
